@@ -93,6 +93,8 @@ using OutputTap = void (*)(const void* data, size_t n, const char* what);
 void setOutputTap(OutputTap tap);
 
 RunResult execPlan(const Plan& plan);
+// basic-block edges of library code executed so far in this process (asan variant; 0 elsewhere)
+uint64_t edgeCount();
 
 // which rule ids are "probes" that make a run non-trivial, per property (documentation for evidence)
 const char* nontrivialRule(const std::string& prop);
